@@ -5,7 +5,7 @@
 use crate::case::*;
 
 fn fin_op(x: u8, a: u8, b: u8) -> FinOp {
-    match x % 14 {
+    match x % 15 {
         0 => FinOp::UpgradeOwnWeak(a % 2),
         1 => FinOp::StashSlot(a % 4),
         2 => FinOp::StashNeighbourSlot(a % 4, b % 4),
@@ -19,6 +19,7 @@ fn fin_op(x: u8, a: u8, b: u8) -> FinOp {
         10 => FinOp::Collect,
         11 => FinOp::TryUnwrap(a),
         12 => FinOp::FinalizeAgain(a),
+        13 => FinOp::UpgradeOwnWeakInto(a % 2, b % 4),
         _ => FinOp::NewCyclic,
     }
 }
